@@ -293,6 +293,112 @@ class UpdateCounts(Case):
                                                                        g('new_size') == init['new_size'] + nb))
 
 
+# ---------------------------------------------------------------------------------------------------------------------------------
+# bounded stand-ins of the end-to-end clauses: the whole tool on corpus blocks, costs measured independently
+import json
+import re
+from pyvc.harness import NativeCase
+from specs import evmexec, gasmodel
+from . import pipeline, blocks as corpus, docs
+from .common import plain_names, cleanup_tmp
+
+
+def indep_size(items):
+    return sum(cost.item_bytes(n if n != 'PUSH' else 'PUSH', v if n == 'PUSH' else None, push0=True) if n == 'PUSH' or n in cost.PSEUDO_PUSH_BYTES
+               else (cost.PSEUDO_PUSH_BYTES.get(n.split(' ')[0] + (' ' + n.split(' ')[1] if n.startswith('PUSH ') else ''), 1) if n.startswith('PUSH') else 1)
+               for n, v in items)
+
+
+def indep_length(items):
+    return sum(1 for n, _ in items if n not in ('tag',))
+
+
+STORAGE_BLOCKS = [
+    "PUSH 5 SLOAD PUSH 0 MSTORE PUSH 0 PUSH 0 LOG0 ADDMOD ADDMOD SHL NOT ADDMOD ADDMOD MULMOD ISZERO PUSH 5 SLOAD POP STOP",
+    "ADDMOD ADDMOD SHL NOT ADDMOD ADDMOD MULMOD ISZERO DUP1 PUSH 5 SSTORE PUSH 5 SSTORE STOP",
+    "MUL PUSH 3 ADDMOD PUSH 3 SLOAD ADD PUSH 1 PUSH 2 ADD SSTORE STOP",
+    "MUL PUSH 3 ADDMOD PUSH 0 MLOAD SLOAD ADD DUP1 PUSH 0 MSTORE8 PUSH 1 PUSH 1 SUB MLOAD SLOAD ADD STOP",
+    "PUSH 0 SLOAD PUSH 20 PUSH 0 LOG0 PUSH 0 SLOAD PUSH 1 PUSH 2 ADD ADD ADD STOP",
+    "DUP1 SLOAD DUP2 SLOAD ADD SWAP1 SSTORE", "PUSH 1 SLOAD PUSH 1 SLOAD ADD PUSH 2 SSTORE", "DUP1 SLOAD PUSH 1 ADD DUP2 SSTORE SLOAD",
+    "PUSH 7 DUP2 SSTORE PUSH 8 DUP2 SSTORE POP", "DUP2 DUP2 SSTORE DUP2 DUP2 SSTORE POP POP", "PUSH 0 SLOAD POP PUSH 0 SLOAD",
+]
+
+
+class EndToEndCost(NativeCase):
+    """bounded: the tool (greedy back end) on corpus blocks under the three criteria; gas, bytes and instruction count of the
+    input and of the emitted block are measured by specs/gasmodel.py and specs/cost.py, not by the tool"""
+    prop = 'C08'
+    name = "end-to-end-cost(bounded)"
+    functions = (gasol_asm.execute_gasol, gasol_asm.optimize_isolated_asm_block)
+    weight = 100
+
+    def run_native(self, tier):
+        from .c10 import EDGE_BLOCKS
+        blocks = list(corpus.BASE_BLOCKS) + STORAGE_BLOCKS + (list(EDGE_BLOCKS) if tier != 'quick' else [])
+        n_states = 6 if tier == 'quick' else 20
+        changed = 0
+        for b in blocks:
+            toks = corpus.tokens(b)
+            text = pipeline.plain_text(toks)
+            items_in = evmexec.parse_plain(toks)
+            depth = utils.compute_stack_size(plain_names(toks))
+            for crit, opts in (('gas', []), ('size', ['-size']), ('length', ['-length'])):
+                r = pipeline.run_cli(text, opts, timeout=30)
+                if r['output'] is None:
+                    continue
+                out_line = r['output'].strip().split('\n')[0]
+                items_out = pipeline.parse_output_block(out_line)
+                inp = dict(block=text, criterion=crit, output=out_line)
+                if items_out == items_in:
+                    continue
+                changed += 1
+                fig_in = dict(size=indep_size(items_in), length=indep_length(items_in))
+                fig_out = dict(size=indep_size(items_out), length=indep_length(items_out))
+                worst = None
+                try:
+                    for st in evmexec.sample_stacks(depth, n=n_states, seed=3):
+                        gi, go_ = gasmodel.gas_of(items_in, st, 0), gasmodel.gas_of(items_out, st, 0)
+                        if worst is None or go_ - gi > worst[0]:
+                            worst = (go_ - gi, gi, go_, [hex(x) for x in st])
+                except (evmexec.Underflow, KeyError):
+                    worst = None
+                if crit == 'gas':
+                    if worst is not None:
+                        self.ob('emitted block costs no more than its input [gas]', worst[0] <= 0, inputs=dict(inp, state=worst[3]),
+                                info="gas %d -> %d on that state" % (worst[1], worst[2]))
+                else:
+                    self.ob('emitted block costs no more than its input [%s]' % crit, fig_out[crit] <= fig_in[crit], inputs=inp,
+                            info="%s %d -> %d" % (crit, fig_in[crit], fig_out[crit]))
+        self.assumptions = ("bounded: %d blocks x 3 criteria, %d emitted blocks differ from their input; gas on %d sampled states with an empty "
+                            "warm set at block entry" % (len(blocks), changed, n_states + 5 + 15),)
+        cleanup_tmp()
+
+
+class SingleJsonOutput(NativeCase):
+    """bounded: the file written for a -single-json input holds the same (optimized) code as the asm-json run on a document with
+    that contract - the printed totals describe that code, not the input"""
+    prop = 'C08'
+    name = "single-json-output-is-the-optimized-contract(bounded)"
+    functions = (gasol_asm.optimize_asm_in_asm_format, gasol_asm.optimize_asm_from_asm_json)
+
+    def run_native(self, tier):
+        run_blocks = [corpus.tokens(b) for b in ("PUSH 1 PUSH 2 ADD PUSH 7 SSTORE PUSH 20 PUSH 20 ADD PUSH 8 SSTORE", "DUP1 DUP1 XOR ADD", "PUSH 0 ADD PUSH 1 MUL")]
+        doc = docs.document([corpus.tokens("PUSH 3 PUSH 4 ADD POP")], run_blocks, with_noasm=False)
+        contract = doc["contracts"]["f.sol:C"]["asm"]
+        for opts in ([], ['-size']):
+            r1 = pipeline.run_cli(docs.dumps(doc), opts, timeout=120, fmt='')
+            r2 = pipeline.run_cli(json.dumps(contract), opts, timeout=120, fmt='-single-json')
+            inp = dict(opts=opts)
+            if r1['output'] is None or r2['output'] is None:
+                self.ob('an output file is written', False, inputs=inp, info=(r1.get('exc'), r2.get('exc')))
+                continue
+            a1 = json.loads(r1['output'])["contracts"]["f.sol:C"]["asm"]
+            a2 = json.loads(r2['output'])
+            self.ob('same code in the -single-json output as in the asm-json output', a1.get(".code") == a2.get(".code") and a1.get(".data") == a2.get(".data"),
+                    inputs=inp, info="%d vs %d items of runtime code" % (len(a1[".data"]["0"][".code"]), len(a2.get(".data", {}).get("0", {}).get(".code", []))))
+        cleanup_tmp()
+
+
 def cases(tier='quick'):
     cs = [ItemCost(n) for n in (['PUSH'] + PSEUDO + BASIC)]
     cs.append(BlockTotals())
@@ -300,4 +406,5 @@ def cases(tier='quick'):
     cs += [BlockHasBeenOptimized(c) for c in ('size', 'gas', 'length', 'other')]
     cs += [CompareBestBlock(c) for c in ('size', 'gas', 'length')]
     cs.append(UpdateCounts())
+    cs += [EndToEndCost(), SingleJsonOutput()]
     return cs, dict(item_vocabulary=len(BASIC) + len(PSEUDO) + 1)
